@@ -4,10 +4,10 @@ import vlib
 
 CFG = {
     # prop: tier: (bfs cfg, keep-every-nth transition trace, sim traces, sim depth)
-    "C01": {"quick": ("MC_TxStore_c01_quick.cfg", 1, 300), "thorough": ("MC_TxStore_c01_thorough.cfg", 1, 5000)},
-    "C02": {"quick": ("MC_TxStore_c01_quick.cfg", 1, 300), "thorough": ("MC_TxStore_c01_thorough.cfg", 1, 5000)},
-    "C13": {"quick": ("MC_TxStore_c01_quick.cfg", 1, 300), "thorough": ("MC_TxStore_c01_thorough.cfg", 1, 5000)},
-    "C12": {"quick": ("MC_TxStore_c12_quick.cfg", 1, 300), "thorough": ("MC_TxStore_c12_thorough.cfg", 1, 5000)},
+    "C01": {"quick": ("MC_TxStore_c01_quick.cfg", 1, 300), "thorough": ("MC_TxStore_c01_thorough.cfg", 1, 3000)},
+    "C02": {"quick": ("MC_TxStore_c01_quick.cfg", 1, 300), "thorough": ("MC_TxStore_c01_thorough.cfg", 1, 3000)},
+    "C13": {"quick": ("MC_TxStore_c01_quick.cfg", 1, 300), "thorough": ("MC_TxStore_c01_thorough.cfg", 1, 3000)},
+    "C12": {"quick": ("MC_TxStore_c12_quick.cfg", 1, 300), "thorough": ("MC_TxStore_c12_thorough.cfg", 1, 3000)},
 }
 LEVEL = "model_checking"
 PROPS = ["C01", "C02", "C12", "C13"]
